@@ -698,6 +698,44 @@ def b_concretize(E, st, fr, ins, args):
     return FORKED
 
 
+# ---- cooperative threads (one simulated MPI rank per thread, all in one address space) -----------------
+def b_thread_create(E, st, fr, ins, args):
+    fa = _int(args[0], 'thread function')
+    name = E.fbyaddr.get(fa)
+    if name is None:
+        raise PathEnd('memory', 'thread function pointer is not a function')
+    f = E.mod.funcs[E.mod.aliases.get(name, name)]
+    tid = st.next_tid
+    st.next_tid += 1
+    saved = st.frames
+    st.frames = []
+    E.push_frame(st, f, [args[1]], None)
+    st.threads[tid] = st.frames
+    st.frames = saved
+    return tid
+
+
+def b_switch(E, st, fr, ins, args):
+    tid = _int(args[0], 'thread id')
+    if tid == st.cur_tid:
+        return None
+    if tid in st.finished or tid not in st.threads:
+        raise PathEnd('trap', 'switch to a finished / unknown thread %d' % tid)
+    E.complete_call(st, ins, None)
+    st.threads[st.cur_tid] = st.frames
+    st.frames = st.threads.pop(tid)
+    st.cur_tid = tid
+    return JUMP
+
+
+def b_thread_finished(E, st, fr, ins, args):
+    return int(_int(args[0], 'thread id') in st.finished)
+
+
+def b_cur_thread(E, st, fr, ins, args):
+    return st.cur_tid
+
+
 # ---- tables -----------------------------------------------------------------
 EXACT = {
     '_Znwm': b_new, '_Znam': b_new, 'malloc': b_malloc, 'calloc': b_calloc, 'realloc': b_realloc,
@@ -725,6 +763,7 @@ EXACT = {
     '__v_check_eq': b_check_eq, '__v_check_le': b_check_le, '__v_reach': b_reach, '__v_note': b_note,
     '__v_record': b_record, '__v_record_int': b_record_int, '__v_exp_lemma_add': b_exp_lemma_add,
     '__v_exp_lemma_inv': b_exp_lemma_inv, '__v_concretize': b_concretize, '__v_check_exp_args': b_check_exp_args,
+    '__v_thread_create': b_thread_create, '__v_switch': b_switch, '__v_thread_finished': b_thread_finished, '__v_cur_thread': b_cur_thread,
     # std exception plumbing that lives in libstdc++.so
     '_ZNSt9exceptionD2Ev': b_nop, '_ZNSt9exceptionD1Ev': b_nop, '_ZNSt9bad_allocD1Ev': b_nop,
     '_ZNSt11logic_errorC2EPKc': b_nop, '_ZNSt11logic_errorD2Ev': b_nop, '_ZNSt11logic_errorD1Ev': b_nop,
@@ -780,6 +819,7 @@ def install(E):
     # names that must take precedence over definitions in the module
     for n in ('__v_sym_int', '__v_sym_real', '__v_assume', '__v_check', '__v_check_eq', '__v_check_le', '__v_reach',
               '__v_note', '__v_record', '__v_record_int', '__v_exp_lemma_add', '__v_exp_lemma_inv', '__v_concretize', '__v_check_exp_args',
+              '__v_thread_create', '__v_switch', '__v_thread_finished', '__v_cur_thread',
               '_Znwm', '_Znam', '_ZdlPv', '_ZdaPv', '_ZdlPvm', 'malloc', 'free', 'calloc', 'realloc'):
         E.builtins[n] = EXACT[n]
     # any ostream function that happens to be defined in the module (implicit instantiation) is still a no-op
